@@ -17,6 +17,10 @@ Groups
               feature dictionary_conflict.)
   c14.fetch   footer-gathering path: one file's footer length swept through int(1.4 * H0) - 12 .. + 12 around the size of the
               first tail fetch (k in {3, 4} files, padded file second / last): the dataset opens and reads back as the concatenation.
+  c14.append_cats  append histories whose categorical label count grows across the int8 / int16 code widths: reads back after every append.
+  c14.big_footer   a data file whose footer is 65536 +- 16 bytes long (and footers grown into that range by in-place updates) opens and reads.
+  c14.order   footer-gathering path with the files listed in a non-sorted order (reversed / rotated): rows, row-group sizes, file
+              paths and per-row-group statistics are those of the files read alone, in the given order.
   c14.verify  files whose schemas differ (dtype / extra column / renamed column / column order / only the logical or
               converted-type annotation or the repetition of one column: tz-aware vs naive, unit, str vs bytes, ...) must be rejected by
               ParquetFile(paths, verify=True), ParquetFile(dir, verify=True) and merge(paths) (verify_schema=True).
@@ -434,6 +438,104 @@ def check_fetch(fastparquet, spec):
         _shutil.rmtree(root, ignore_errors=True)
 
 
+
+def check_order(fastparquet, spec):
+    """k >= 3 single files (one row group each, distinct value ranges) given in a NON-sorted order (reversed / rotated): the handle
+    must pair every path with ITS footer: rows in the given order, and the per-row-group statistics of the multi-file handle must
+    be those of the files read alone, in the given order"""
+    root = _tempfile.mkdtemp(prefix="c14o-")
+    try:
+        k = spec["k"]
+        names = ["a.parquet", "b.parquet", "c.parquet", "d.parquet"][:k]
+        frames = [pd.DataFrame({"id": np.arange(2 + i, dtype="int64") + 100 * i, "s": [f"f{i}r{j}" for j in range(2 + i)]}) for i in range(k)]
+        for nm, df in zip(names, frames):
+            fastparquet.write(_os.path.join(root, nm), df, stats=True)
+        idx = {"reversed": list(range(k))[::-1], "rot1": list(range(1, k)) + [0], "rot2": list(range(2, k)) + [0, 1],
+               "sorted": list(range(k))}[spec["order"]]
+        paths = [_os.path.join(root, names[i]) for i in idx]
+        pf = fastparquet.ParquetFile(paths)
+        got = pf.to_pandas()
+        want = pd.concat([frames[i] for i in idx], ignore_index=True)
+        if list(got["id"]) != list(want["id"]) or list(got["s"]) != list(want["s"]):
+            return f"rows differ from the concatenation in the given order {idx}: {list(got['id'])}"
+        if [rg.num_rows for rg in pf.row_groups] != [len(frames[i]) for i in idx]:
+            return f"row-group sizes {[rg.num_rows for rg in pf.row_groups]} are not those of the files in the given order"
+        st = pf.statistics
+        for col in ("id", "s"):
+            for what in ("min", "max", "null_count"):
+                alone = [fastparquet.ParquetFile(p_).statistics[what][col][0] for p_ in paths]
+                if list(st[what][col]) != alone:
+                    return f"statistics[{what!r}][{col!r}] of the multi-file handle {list(st[what][col])} != those of the files read alone {alone}"
+        rel = [_os.path.basename(p_) for p_ in paths]
+        if [rg.columns[0].file_path for rg in pf.row_groups] != rel:
+            return f"row groups point at {[rg.columns[0].file_path for rg in pf.row_groups]}, expected {rel}"
+        return None
+    finally:
+        _shutil.rmtree(root, ignore_errors=True)
+
+
+
+def check_append_cats(fastparquet, spec):
+    """a hive dataset whose categorical column grows across a code-width boundary by APPENDS (first `a` labels, then `b` labels, the label
+    sets prefix-compatible; optionally a third append): after every append the dataset reads back (directory, list of the part
+    files) and announces at least as many categories as any chunk holds"""
+    root = _tempfile.mkdtemp(prefix="c14a-")
+    try:
+        counts = spec["counts"]
+        frames = []
+        for i, n in enumerate(counts):
+            labels = [f"L{j:04d}" for j in range(n)]
+            vals = [labels[-1], labels[0], labels[n // 2]]
+            frames.append(pd.DataFrame({"id": np.arange(3, dtype="int64") + 10 * i, "c": pd.Categorical(vals, categories=labels)}))
+        d = _os.path.join(root, "ds")
+        for i, df in enumerate(frames):
+            fastparquet.write(d, df, file_scheme="hive", append=(i > 0))
+            want = pd.concat(frames[:i + 1], ignore_index=True)
+            parts = sorted(_glob.glob(_os.path.join(d, "*.parquet")), key=lambda p_: int(_os.path.basename(p_).split(".")[1]))
+            for how, target in (("directory", d), ("list", parts)):
+                if how != spec["open"]:
+                    continue
+                pf = fastparquet.ParquetFile(target)
+                if pf.categories.get("c", 0) < max(counts[:i + 1]):
+                    return f"after append {i} ({how}): {pf.categories.get('c')} categories announced, a chunk holds {max(counts[:i + 1])}"
+                got = pf.to_pandas()
+                if list(got["id"]) != list(want["id"]) or [str(x) for x in got["c"]] != [str(x) for x in want["c"]]:
+                    return f"after append {i} ({how}): rows differ: {[str(x) for x in got['c']]}"
+        return None
+    finally:
+        _shutil.rmtree(root, ignore_errors=True)
+
+
+
+def check_big_footer(fastparquet, spec):
+    """one data file whose footer length is set to 65536 + delta (padded custom_metadata value), delta in [-16, 16] - around any 64 KiB
+    read-ahead window of the header parser: it opens, reads back, and an in-place key-value update leaves it openable"""
+    root = _tempfile.mkdtemp(prefix="c14b-")
+    try:
+        fn = _os.path.join(root, "big.parquet")
+        df = pd.DataFrame({"id": np.arange(5, dtype="int64"), "s": ["a", "b", "c", "d", "e"]})
+        target, n = 65536 + spec["delta"], 65000
+        for _ in range(8):
+            fastparquet.write(fn, df, custom_metadata={"pad": "x" * n})
+            got = _footer_len(fn)
+            if got == target:
+                break
+            n += target - got
+        if _footer_len(fn) != target:
+            return None
+        pf = fastparquet.ParquetFile(fn)
+        if list(pf.to_pandas()["id"]) != list(df["id"]) or pf.key_value_metadata.get("pad") != "x" * n:
+            return f"footer of {target} bytes: rows or key-values differ after open"
+        if spec.get("update"):
+            fastparquet.writer.update_file_custom_metadata(fn, {"k": "v" * spec["update"]})
+            pf = fastparquet.ParquetFile(fn)
+            if list(pf.to_pandas()["id"]) != list(df["id"]) or pf.key_value_metadata.get("k") != "v" * spec["update"]:
+                return f"after growing the footer from {target} by an in-place update: rows or key-values differ"
+        return None
+    finally:
+        _shutil.rmtree(root, ignore_errors=True)
+
+
 # <<< SNIPPET-CORE
 
 
@@ -561,6 +663,27 @@ def enumerate_verify(tier):
                     yield {"mismatch": m, "k": k, "odd": odd, "open": op}
 
 
+def enumerate_append_cats(tier):
+    # (label sets grow: the reader keeps the dictionary read LAST - shrinking histories are the known finding C14-categorical-labels-...)
+    for counts in ([3, 150], [3, 150, 40000], [100, 128], [3, 3, 150], [127, 128, 129], [3, 100]):
+        for how in ("list", "directory"):
+            yield {"counts": counts, "open": how}
+
+
+def enumerate_big_footer(tier):
+    for delta in range(-16, 17):
+        yield {"delta": delta, "update": 0}
+    for delta in (-40, -30, -20, -12):
+        for upd in (3, 9, 17, 25):
+            yield {"delta": delta, "update": upd}
+
+
+def enumerate_order(tier):
+    for k in (3, 4):
+        for order in ("reversed", "rot1", "rot2", "sorted"):
+            yield {"k": k, "order": order}
+
+
 def enumerate_fetch(tier):
     for k in (3, 4):
         for pos in sorted({1, k - 1}):
@@ -579,7 +702,7 @@ def _worker_main():
         out.write(f"\nB {i}\n")
         out.flush()
         try:
-            what = check_many(fp, spec[1]) if spec[0] == "concat" else check_fetch(fp, spec[1]) if spec[0] == "fetch" else check_verify(fp, spec[1])
+            what = check_many(fp, spec[1]) if spec[0] == "concat" else check_fetch(fp, spec[1]) if spec[0] == "fetch" else check_order(fp, spec[1]) if spec[0] == "order" else check_big_footer(fp, spec[1]) if spec[0] == "big_footer" else check_append_cats(fp, spec[1]) if spec[0] == "append_cats" else check_verify(fp, spec[1])
         except BaseException as e:      # noqa: any escape = failed contract (reported by the parent)
             tb = traceback.extract_tb(e.__traceback__)
             at = f"{os.path.basename(tb[-1].filename)}:{tb[-1].lineno} {tb[-1].name}" if tb else "?"
@@ -632,7 +755,15 @@ def run_jobs(jobs, nproc):
 
 def run_bounded(ctx):
     import_fastparquet()
-    GC, GV, GF = "c14.concat", "c14.verify", "c14.fetch"
+    GC, GV, GF, GO, GA, GB = "c14.concat", "c14.verify", "c14.fetch", "c14.order", "c14.append_cats", "c14.big_footer"
+    ctx.bounded_group(GB, rule="one data file with a footer of 65536 + delta bytes, delta in [-16, 16] (33 lengths), plus footers just below the window "
+                      "grown INTO it by an in-place key-value update (4 x 4): opens, rows and key-values right")
+    ctx.bounded_group(GA, rule="append histories on a hive dataset whose categorical column has 3 -> 150 (-> 40000), 100 -> 128, 150 -> 3, 3 -> 3 -> 150, "
+                      "127 -> 128 -> 129 prefix-compatible labels (crossing the int8 / int16 code widths): after every append, opened as directory (through the _metadata the append "
+                      "wrote) or as list of the part files: rows == concatenation, labels right, categories announced >= the largest chunk's count")
+    ctx.bounded_group(GO, rule="footer-gathering path: k in {3, 4} single files with distinct value ranges and row counts, listed reversed / rotated "
+                      "by 1 / by 2 / sorted: rows in the given order, row-group sizes, file_path of every row group, and pf.statistics "
+                      "(min / max / null_count per row group) equal to the statistics of each file read alone, in the given order")
     ctx.bounded_group(GC, rule="1..4 elements (single files; hive sub-datasets partitioned on p) with columns int64 id, "
                       "float64+NaN, str+None, categorical; shapes flat / flat with part.<n> names whose given order (2,10,9,100) is neither "
                       "the lexicographic order nor its reverse / k=v / a=v/b=w / u/x (drill) / sub-datasets; rows per "
@@ -657,7 +788,10 @@ def run_bounded(ctx):
     concat = list(enumerate_concat(ctx.tier))
     verify = list(enumerate_verify(ctx.tier))
     fetch = list(enumerate_fetch(ctx.tier))
-    jobs = [("concat", s) for s in concat] + [("verify", s) for s in verify] + [("fetch", s) for s in fetch]
+    order = list(enumerate_order(ctx.tier))
+    appc = list(enumerate_append_cats(ctx.tier))
+    bigf = list(enumerate_big_footer(ctx.tier))
+    jobs = [("concat", s) for s in concat] + [("verify", s) for s in verify] + [("fetch", s) for s in fetch] + [("order", s) for s in order] + [("append_cats", s) for s in appc] + [("big_footer", s) for s in bigf]
     ncpu = os.cpu_count() or 2
     results = run_jobs(jobs, max(2, min(12, ncpu - 4)))
     skipped = sum(1 for w in results if w == NOT_EVALUATED)
@@ -672,6 +806,23 @@ def run_bounded(ctx):
                       nontrivial=F["nonempty_files"] > 0,
                       contract="rows == concatenation of the files' rows in the given order; count(); partition columns "
                                "from directory names; categorical label of every row as in its file") as c:
+                if what:
+                    c.fail(what)
+        elif kind == "big_footer":
+            with Case(ctx, GB, {"footer_len_minus_64KiB": spec["delta"], "grown_by_update": spec["update"]}, snippet=snippet(f"check_big_footer(fastparquet, {spec!r})"),
+                      contract="a valid file opens whatever its footer length is") as c:
+                if what:
+                    c.fail(what)
+        elif kind == "append_cats":
+            crosses = any(a <= w < b for a, b in zip(spec["counts"], spec["counts"][1:]) for w in (127, 32767))
+            with Case(ctx, GA, {"label_counts": "-".join(map(str, spec["counts"])), "open": spec["open"], "crosses_code_width": crosses,
+                                "count_grows_by_append": any(b > a for a, b in zip(spec["counts"], spec["counts"][1:]))}, snippet=snippet(f"check_append_cats(fastparquet, {spec!r})"),
+                      contract="after every append the dataset reads back and announces enough categories") as c:
+                if what:
+                    c.fail(what)
+        elif kind == "order":
+            with Case(ctx, GO, {"files": spec["k"], "order": spec["order"]}, snippet=snippet(f"check_order(fastparquet, {spec!r})"),
+                      contract="every listed path is paired with ITS footer: rows, row-group sizes, file paths and statistics follow the given order") as c:
                 if what:
                     c.fail(what)
         elif kind == "fetch":
